@@ -7,6 +7,7 @@ import (
 	"encoding/json"
 
 	apimachineryerrors "k8s.io/apimachinery/pkg/api/errors"
+	metav1 "k8s.io/apimachinery/pkg/apis/meta/v1"
 	"k8s.io/apimachinery/pkg/apis/meta/v1/unstructured"
 	"k8s.io/apimachinery/pkg/runtime/schema"
 	"k8s.io/apimachinery/pkg/types"
@@ -34,6 +35,13 @@ func verifC05Teardown(strategyKind int) {
 	rv := verifrt.StringFrom("object.resourceVersion", "41", "42")
 	s.existing.SetUID(types.UID(uid))
 	s.existing.SetResourceVersion(rv)
+	// the object may already be terminating (deletion requested earlier, a foreign finalizer holds it)
+	terminating := verifrt.Bool("object.terminating")
+	if terminating {
+		now := metav1.Now()
+		s.existing.SetDeletionTimestamp(&now)
+		s.existing.SetFinalizers([]string{"example.com/hold"})
+	}
 
 	w := &vWriter{}
 	delOutcome := verifrt.IntRange("deleteOutcome", 0, 2) // nil | NotFound | Conflict
@@ -106,7 +114,8 @@ func verifC05Teardown(strategyKind int) {
 	verifrt.Assert(deletes <= 1, "C05/at-most-one-delete")
 	verifrt.Assert(verifrt.Implies(deletes > 0, pinned), "C05/delete-pinned-to-uid-and-resourceVersion")
 	// conversely, a controlled object that was inspected is deleted (teardown makes progress)
-	verifrt.Assert(verifrt.Implies(verifrt.And(inspected, byMe), deletes == 1), "C05/controlled-is-deleted")
+	// (an object that is already terminating need not be deleted again; it just is not "done" yet)
+	verifrt.Assert(verifrt.Implies(verifrt.And(inspected && !terminating, byMe), deletes == 1), "C05/controlled-is-deleted")
 	// co-owned: only a merge patch removing my reference and the cache label
 	coOwned := verifrt.And(inspected, verifrt.And(ownedByMe, verifrt.Not(byMe)))
 	patchOK := false
@@ -119,6 +128,8 @@ func verifC05Teardown(strategyKind int) {
 	// the "done" answer: never true after issuing a delete that succeeded or failed other than NotFound
 	verifrt.Assert(verifrt.Implies(verifrt.And(deletes > 0, delOutcome != 1), !done), "C04/not-done-while-delete-pending")
 	verifrt.Assert(verifrt.Implies(err != nil, !done), "C04/error-not-done")
+	// a controlled object that was found present is cleaned up only once a delete is answered NotFound
+	verifrt.Assert(verifrt.Implies(verifrt.And(inspected, byMe), !done || (deletes > 0 && delOutcome == 1)), "C04/done-only-when-controlled-object-is-gone")
 
 	if deletes == 1 {
 		verifrt.Reach("deleted")
